@@ -14,7 +14,7 @@ SHARD = 40
 RULE = ("kernel states drawn from a grammar: 0-30 sockets over /proc/net/{tcp,tcp6,udp,udp6,unix} (IPv4/IPv6 addresses incl. "
         "zero, loopback, v4-mapped, link-local, all-ones, random; ports {0,1,22,80,443,65535,random}; all 11 TCP states; inode 0 "
         "TIME_WAIT lines; UNIX stream/dgram/seqpacket, unbound / path / path with blanks, tabs, trailing blank / @abstract / "
-        "UTF-8 / undecodable bytes / leading, trailing, repeated blanks and tabs), 1-4 processes (visible or EACCES fd directory) holding each socket through "
+        "UTF-8 / undecodable bytes / leading, trailing, repeated blanks and tabs / CR, \\x1c-\\x1f, VT, FF, NBSP, NEL, LINE SEPARATOR / LF (outside the theorems, model only)), 1-4 processes (visible or EACCES fd directory) holding each socket through "
         "0-3 descriptors shared between processes (TCP/UDP and UNIX), closed and non-socket descriptors, absent IPv6 files, little- and big-endian "
         "decoding; every state is queried system-wide with all 11 kinds + junk kinds and per process; plus address-only cases "
         "(every byte value at every address position in the exhaustive part), hosts without IPv6 (inet_ntop failing, supports_ipv6() "
@@ -28,8 +28,10 @@ TRUSTED = ["correspondence harness props/C11.py + pv/ (fake /proc tree, os.listd
            "table translator props/_c11_tables.py (dumps TCP_STATUSES, tmap, conn_tmap, socket constants into coq/Gen/C11_Tables.v)",
            "glibc inet_ntop/inet_pton: an address is compared as its packed bytes (socket.inet_pton of the text psutil returns)"]
 ASSUMPTIONS = ["CPython semantics of str.split/int/base64.b16decode/struct and dict/set are modelled, not verified",
-               "files containing '\\r', \\x1c-\\x1f or non-ASCII Unicode white space are outside the model (text-mode reading differs)",
-               "a UNIX socket name containing a newline cannot be carried by the one-line-per-socket format and is excluded",
+               "tcp/udp files holding \\x1c-\\x1f or non-ASCII Unicode white space, and unix records holding them before the socket "
+               "name, are outside the model (str.split differs from bytes.split there); the kernel prints none of them there",
+               "a UNIX socket name containing LF is printed raw by the kernel and splits its record: excluded from the theorems "
+               "(stated with a witness), still compared with the model",
                "os.listdir order is controlled by the harness; the owner reported for a multiply-held TCP/UDP socket may be any holder"]
 EXHAUSTIVE = {"quick": "kind x (family,type): all 11 kinds over a state holding one socket of each of tcp4/tcp6/udp4/udp6/unix-stream/"
                        "unix-dgram/unix-seqpacket; all 11 TCP states; every byte value 0..255 at one position of a v4 and a v6 address",
@@ -41,10 +43,12 @@ EXHAUSTIVE = {"quick": "kind x (family,type): all 11 kinds over a state holding 
 # of the tree without the fix(es) (VERIF_REPO=<copy>).
 MERGE_INODES = True       # fix d36edd1 (get_all_inodes keeps every holder)
 EXACT_UNIX_PATH = True    # fix 9cf9292 (UNIX name = everything after the single blank that follows the inode)
+NEWLINE_LF = True         # fix 0e98900 (/proc/net/unix opened with newline="\n")
 if os.environ.get("C11_VARIANT") is not None:
     MERGE_INODES = "merge" in os.environ["C11_VARIANT"].split()
     EXACT_UNIX_PATH = "exact" in os.environ["C11_VARIANT"].split()
-VARIANT = "(Build_variant %s %s)" % (G.bo(MERGE_INODES), G.bo(EXACT_UNIX_PATH))
+    NEWLINE_LF = "lf" in os.environ["C11_VARIANT"].split()
+VARIANT = "(Build_variant %s %s %s)" % (G.bo(MERGE_INODES), G.bo(EXACT_UNIX_PATH), G.bo(NEWLINE_LF))
 
 KINDS = ["all", "inet", "inet4", "inet6", "tcp", "tcp4", "tcp6", "udp", "udp4", "udp6", "unix"]
 JUNK = ["", "TCP", "tcp ", "inet5", "unix6", "all\n", "raw", "Tcp4", "None", " udp", "tcp4,tcp6", "inét"]
@@ -59,6 +63,12 @@ PORTS = [0, 0, 1, 22, 80, 443, 65535, 40521]
 PATHS = [None, None, b"/run/x.sock", b"/tmp/a b", b"/tmp/a  b c", b"@abstract", b"@abs with blank ", b"/tmp/trail ",
          b"/tmp/s\xc3\xb6k", b"/tmp/a\tb", b"/tmp/\xff\xfe", b"@", b"/var/run/dbus/system_bus_socket", b"x", b"@00012",
          b"/tmp/\xe2\x82\xac", b"/a/" + b"p" * 100]
+# names with CR, \x1c-\x1f, VT/FF, NBSP, NEL, LINE SEPARATOR, IDEOGRAPHIC SPACE, raw \x85/\xa0, everything at once
+ODD_PATHS = [b"/tmp/a\rb c", b"\r", b"/tmp/x\r\n"[:-1], b"/tmp/\x1c\x1d\x1e\x1f", b"/tmp/a\x0bb\x0cc", b"/tmp/nb\xc2\xa0sp x",
+             b"\xc2\x85nel", b"/tmp/ls\xe2\x80\xa8 ps\xe2\x80\xa9", b"\xe3\x80\x80", b"/tmp/\x85\xa0", b"a\r\rb\r",
+             b" \r\x1c\xc2\xa0\xe2\x80\xa8\t\xff x \x1f", b"@abs\rtract", b"/tmp/\xe1\x9a\x80ogham"]
+# names with LF: the kernel prints them raw and the record splits -- outside the theorems' domain, compared with the model only
+LF_PATHS = [b"/tmp/a\nb c", b"/tmp/a\nb", b"\n", b"/tmp/x\n"]
 LEAD_WS_PATHS = [b" lead", b"\tx", b"  two", b" @abs", b" ", b"   ", b" a b ", b" \t mixed  blanks "]
 OTHER_TARGETS = ["pipe:[%d]", "anon_inode:[eventpoll]", "/dev/null", "/nonexistent/file%d", "/nonexistent/x%d (deleted)",
                  "anon_inode:[eventfd]", "net:[4026531992]", "/nonexistent/socket:[%d]"]
@@ -83,7 +93,9 @@ def _isock(rng, v6, tcp, inode):
 
 
 def _usock(rng, inode, lead_ws=False):
-    p = rng.choice(LEAD_WS_PATHS) if lead_ws or rng.random() < 0.05 else rng.choice(PATHS)
+    r = rng.random()
+    p = (rng.choice(LEAD_WS_PATHS) if lead_ws or r < 0.05 else rng.choice(ODD_PATHS) if r < 0.17 else
+         rng.choice(LF_PATHS) if r < 0.19 else rng.choice(PATHS))
     return {"type": rng.choice([1, 1, 2, 5]), "inode": inode, "path": None if p is None else p.hex(),
             "ref": rng.choice([2, 3]), "flags": rng.choice([0, 0x10000]), "st": rng.choice([1, 3]),
             "xpad": rng.choice([0, 0, 0, 2])}
@@ -148,7 +160,15 @@ def _state(rng, size, flavour):
     return st
 
 
+def _upaths(st):
+    return [bytes.fromhex(u["path"]) for u in st["unix"] if u["path"] is not None]
+
+
 def _cls(st, le):
+    if any(b"\n" in p for p in _upaths(st)):
+        return "state-unix-lf-name"
+    if any(p in ODD_PATHS for p in _upaths(st)):
+        return "state-unix-odd-name"
     if any(u["path"] is not None and bytes.fromhex(u["path"])[:1] and bytes.fromhex(u["path"])[0] in WS for u in st["unix"]):
         return "state-leadws"
     if _unix_shared(st):
@@ -240,6 +260,8 @@ RAW_LINES_INET = [
     b"  11: 0100007F:0016 00000000:0000 01 00000000:00000000 00:00000000 00000000     0        0 500 1",         # no newline at EOF
     b"  12: 0100007F:0016 00000000:0000 0a 00000000:00000000 00:00000000 00000000     0        0 512 1\n",     # lower-case state
     b"  13: 0100007F:0000 00000000:0000 0A 00000000:00000000 00:00000000 00000000     0        0 00500 1\n",   # inode text differs
+    b"  14: 0100007F:0016 00000000:0000 0A 00000000:00000000 00:00000000 00000000     0        0 500 1\r\n",    # CRLF
+    b"  15: 0100007F:0016 00000000:0000 0A 00000000:00000000 00:00000000 00000000\r     0        0 500 1\n",    # CR splits the line
 ]
 RAW_LINES_UNIX = [
     b"0000000000000000: 00000002 00000000 00010000 0001 01   600 /tmp/a b\n",
@@ -253,6 +275,9 @@ RAW_LINES_UNIX = [
     b"0000000000000000: 00000002 00000000 00010000 0002 01 605 /a\n\n",   # blank line after
     b"0000000000000000: 00000002 00000000 00010000 0001 01   600 /tmp/no-newline-at-eof",
     b"0000000000000000: 00000002 00000000 00010000 0005 01 606 @a\tb \n",
+    b"0000000000000000: 00000002 00000000 00010000 0001 01   600 /tmp/a\rb c\n",   # CR in the name
+    b"0000000000000000: 00000002 00000000 00010000 0001 01 601 /x\r\n",            # name ends with CR
+    b"0000000000000000: 00000002\r00000000 00010000 0001 01 600 /y\n",             # CR between fields
 ]
 RAW_LINKS = [["target", b"socket:[500]".hex()], ["target", b"socket:[600]".hex()], ["target", b"socket:[601]".hex()],
              ["target", b"socket:[500] (deleted)".hex()], ["target", b"socket:[".hex()], ["target", b"socket:[]".hex()],
@@ -630,6 +655,8 @@ def finding_key(case, coq):
     if not EXACT_UNIX_PATH and any(u["path"] is not None and bytes.fromhex(u["path"])[:1]
                                    and bytes.fromhex(u["path"])[0] in WS for u in case["unix"]):
         return "unix-path-leading-blank"
+    if not NEWLINE_LF and any(b"\r" in p for p in _upaths(case)):
+        return "unix-path-with-cr"
     if not MERGE_INODES and _unix_shared(case):
         return "unix-socket-shared-between-processes"
     return None
@@ -922,14 +949,16 @@ MANIFEST = {
             "kernel state, reading nothing; (2) for every IPv4/IPv6 address and every port the decoder returns the address bytes and port the "
             "kernel printed (both byte orders), () for port 0, and on a host whose inet_ntop lacks IPv6 ValueError / _Ipv6UnsupportedError as "
             "supports_ipv6() says; (3) for every kernel state (any number of sockets, any addresses/ports, all 11 TCP states, UNIX names with "
-            "leading/trailing/repeated blanks and @abstract names, any descriptor tables incl. sockets shared between processes, hidden "
+            "any bytes except LF and NUL -- leading/trailing/repeated blanks, CR, \\x1c-\\x1f, Unicode blanks, @abstract names; a name with LF "
+            "splits its record in the kernel's output and is the one excluded class, stated with a witness --, any descriptor tables incl. "
+            "sockets shared between processes, hidden "
             "processes, absent IPv6 files) and every kind, system-wide and per process: the sequence of set.add() calls is in bijection with the "
             "demanded rows (none missing, none twice; admissible owner, (None,-1) when no holder is visible, one row per holder for UNIX sockets, "
             "TCP/UDP: first holder in scan order), the returned list is the duplicate-free set of them (duplicate-freeness holds for EVERY input), "
             "and exactly the existing tables of the kind are opened, each once -- none when the process holds no socket; (4) without IPv6 support "
             "the IPv4/UNIX rows are unchanged and only IPv6 sockets with both ports 0 remain; (5) RuntimeError is raised exactly for TCP/UDP lines "
             "with fewer than 10 fields and UNIX lines with fewer than 7 fields and a blank, blank-free short UNIX lines (issue 766) are skipped "
-            "and change nothing. The code before the fixes d36edd1 / 9cf9292 is kept as a model variant with the two refuted statements. The "
+            "and change nothing. The code before the fixes d36edd1 / 9cf9292 / 0e98900 is kept as model variants with the three refuted statements. The "
             "model is tied to the code by running real psutil through its public API over a fake /proc for generated states, all kinds, hosts "
             "with and without IPv6, and a malformed stream, comparing per call the returned list, the add() multiset and the access log.",
     "note": "Trusted: Coq kernel + vm_compute; hand-written model coq/C11/Model.v (tied by the correspondence run only); kernel formats in "
